@@ -85,7 +85,7 @@ def run_check(cid, tier, seed):
         print(f'CHECKER-ERROR property {cid} has no check')
         return 3
     P = PROPS[cid]
-    timeout_ms = 30000 if tier == 'quick' else 240000
+    timeout_ms = int(os.environ.get('VERIF_TIMEOUT_MS', 30000 if tier == 'quick' else 240000))
     kf_path = os.path.join(ROOT, 'known_findings.json')
     known = json.load(open(kf_path))['findings'] if os.path.exists(kf_path) else []
     reports = []
@@ -99,7 +99,20 @@ def run_check(cid, tier, seed):
         nat_proc = native_start(['search', '--prop', cid, '--seed', str(seed), '--budget', str(budget),
                                  '--time-limit', '40' if tier == 'quick' else '900', '--known', json.dumps(kn)])
     # ---------------------------------------------------------------- generate obligations from the real source
-    for key in P['functions']:
+    deps = P.get('deps', {})
+    if not isinstance(deps, dict):
+        # a dependency named without tags is relied upon with its whole contract
+        deps = {k: sorted(set(reg.contracts[k].ensures) | set(reg.contracts[k].props)) for k in deps
+                if k in reg.contracts}
+        for k in P.get('deps', []):
+            if k not in reg.contracts:
+                errors.append(f'no contract registered for dependency {k}')
+    focus = dict(cid=cid, deps=deps)
+
+    def ftags(key):
+        return {cid} | set(deps.get(key, ())) | set(deps.get(key.split('#')[0], ()))
+    plan = list(P['functions']) + [k for k in deps if k not in P['functions']]
+    for key in plan:
         c = reg.contracts.get(key)
         if c is None:
             errors.append(f'no contract registered for {key}')
@@ -114,7 +127,7 @@ def run_check(cid, tier, seed):
                 if case is not None and case.get('mode') not in (None, mode):
                     continue
                 try:
-                    rep = verify.verify_function(prog, reg, key, mode=mode, case=case)
+                    rep = verify.verify_function(prog, reg, key, mode=mode, case=case, focus=focus)
                 except Exception:
                     errors.append(f'{key}: engine traceback: ' + traceback.format_exc()[-800:])
                     continue
@@ -132,11 +145,18 @@ def run_check(cid, tier, seed):
                 if rep.error:
                     errors.append(f'lemma {lem["name"]}: {rep.error}')
                 reports.append(rep)
+    # every checked callee whose contract was used as a hypothesis must itself be verified by this check
+    planned = {k.split('#')[0] for k in plan}
+    for rep in reports:
+        for ck in sorted(getattr(rep, 'callees', ())):
+            if ck.split('#')[0] not in planned:
+                errors.append(f'{rep.key}: the contract of {ck} is used as a hypothesis but {ck} is not in the plan of {cid} '
+                              f'(missing dependency)')
     obs = []
     for rep in reports:
         c = reg.contracts.get(rep.key)
         for ob in rep.obs:
-            if cid in ob.props:
+            if ftags(rep.key) & set(ob.props):
                 obs.append(ob)
                 if c is not None and c.expect_refuted:
                     ob.meta['expect_refuted'] = True
@@ -307,7 +327,20 @@ def run_check(cid, tier, seed):
     assumptions = set(P.get('assumptions', []))
     for rep in reports:
         assumptions |= set(rep.assumptions)
-    for key in P['functions']:
+    deps = P.get('deps', {})
+    if not isinstance(deps, dict):
+        # a dependency named without tags is relied upon with its whole contract
+        deps = {k: sorted(set(reg.contracts[k].ensures) | set(reg.contracts[k].props)) for k in deps
+                if k in reg.contracts}
+        for k in P.get('deps', []):
+            if k not in reg.contracts:
+                errors.append(f'no contract registered for dependency {k}')
+    focus = dict(cid=cid, deps=deps)
+
+    def ftags(key):
+        return {cid} | set(deps.get(key, ())) | set(deps.get(key.split('#')[0], ()))
+    plan = list(P['functions']) + [k for k in deps if k not in P['functions']]
+    for key in plan:
         c = reg.contracts.get(key)
         if c:
             assumptions |= set(c.assumes)
@@ -329,7 +362,8 @@ def run_check(cid, tier, seed):
             explanation=('every generated obligation discharged' if level == 'proof' else
                          'not every obligation discharged on this run: ' + '; '.join(lines)[:500]),
             functions_under_contract=[dict(function=r.key, sha256=r.sha, paths=r.paths, mode=r.mode, case=r.case,
-                                           obligations=sum(1 for o in r.obs if cid in o.props)) for r in reports],
+                                           obligations=sum(1 for o in r.obs if ftags(r.key) & set(o.props)),
+                                           role=('dependency' if r.key not in P['functions'] and not r.key.startswith('lemma:') else 'property')) for r in reports],
             by_backend=by_backend, solver_wall_s=round(solver_wall, 2),
             solver_cpu_s=round(sum(o.time for o in obs), 2),
             slowest=[dict(name=o.name, s=round(o.time, 2)) for o in slow],
